@@ -83,8 +83,8 @@ func lemmaBackoffMono(T, i, j int) {
 //@   ensures[accepted] result == nil ==> sends() >= s0 + 1 && sentAt() <= now()
 //@   loop 0 invariant[config] c.retry == N && int(c.timeout) == T
 //@   loop 0 invariant[schedule] 0 <= i && (N >= 0 ==> i <= N) && int(timeout) == specBackoff(T, i) && now() == t0 + int(timeout) - T && sends() == s0 + i && T >= 0 && int(timeout) >= 0
-//@   after `switch err := fn(timeout); err {` use lemmaBackoffMono(T, i+1, ite(N >= i+1, N, i+1))
-//@   after `switch err := fn(timeout); err {` assert[try-starts-on-schedule] sends() == s0 + i + 1 ==> sentAt() == t0 + specBackoff(T, i) - T
+//@   after `call:fn` use lemmaBackoffMono(T, i+1, ite(N >= i+1, N, i+1))
+//@   after `call:fn` assert[try-starts-on-schedule] sends() == s0 + i + 1 ==> sentAt() == t0 + specBackoff(T, i) - T
 
 //@ define pktOK(m) = m != nil
 
